@@ -471,10 +471,14 @@ func trunc(s string, n int) string {
 
 func confirm(bin string, job Job, prop string, v Violation) (bool, string) {
 	var first string
-	for i := 0; i < 5; i++ {
+	n := 5
+	if strings.Contains(v.Kind, "does-not-return") || strings.Contains(v.Kind, "watchdog") {
+		n = 2 // every replay of a non-returning call costs the whole watchdog limit
+	}
+	for i := 0; i < n; i++ {
 		args := []string{job.Engine, "-props", prop, "-replay", v.Witness}
 		args = append(args, job.Args...)
-		rep, err := runWorker(bin, args, workerEnv())
+		rep, err := runWorker(bin, args, append(workerEnv(), "VH_WATCHDOG_S=12"))
 		if v.Kind == "process-crash" {
 			if _, ok := err.(*crashError); !ok {
 				return false, fmt.Sprintf("replay %d did not crash", i)
